@@ -204,3 +204,24 @@ pub fn to_dict(d: &[(Bytes, Val)]) -> Dictionary {
     }
     out
 }
+
+/// PDF-like rendering of a canonical value for messages.
+pub fn show(c: &Canon) -> String {
+    fn esc(b: &[u8]) -> String {
+        b.iter().map(|&x| if (0x20..0x7f).contains(&x) && x != b'\\' { (x as char).to_string() } else { format!("\\x{:02x}", x) }).collect()
+    }
+    fn dict(d: &[(Vec<u8>, Canon)]) -> String {
+        format!("<<{}>>", d.iter().map(|(k, v)| format!(" /{} {}", esc(k), show(v))).collect::<String>() + " ")
+    }
+    match c {
+        Canon::Null => "null".into(),
+        Canon::Bool(b) => b.to_string(),
+        Canon::Num(n) => format!("{}", n),
+        Canon::Str(s) => format!("({})", esc(s)),
+        Canon::Name(n) => format!("/{}", esc(n)),
+        Canon::Array(a) => format!("[{}]", a.iter().map(show).collect::<Vec<_>>().join(" ")),
+        Canon::Dict(d) => dict(d),
+        Canon::Ref(a, b) => format!("{} {} R", a, b),
+        Canon::Stream(d, data) => format!("{} stream({} bytes: {})", dict(d), data.len(), esc(&data[..data.len().min(24)])),
+    }
+}
